@@ -70,7 +70,11 @@ CHECKS.append(chk("C05", "exploration",
     "State-machine generation on one connection plus an observer connection: autocommit statements and BEGIN..COMMIT / ROLLBACK / COMMIT-with-injected-storage-fault transactions (multi-row, duplicate-key and NULL-key statements inside), with explicit per-statement write_time or none, on tables pre-filled to several tree heights. Oracles: reads-own-writes against the reference model after every statement; the observer (refresh + scan) equals the committed model before and after the transaction ends; a rollback of either kind restores rows, s3db_version and the set of version objects (explicit rollback: zero PUT/DELETE); a COMMIT adds at most one version (exactly one if rows changed); entry-level timestamps of a transaction without write_time are one instant and write_time reads NULL again. Open findings K2/K3/K4 are steered away from (counted) and reported from their witnesses.",
     "stateful property-based testing (rapid) against a reference model + request-log and bucket-listing invariants + injected commit faults"))
 
-for pid in ["C03","C15","C17","C18","C19","C20"]:
+CHECKS.append(chk("C15", "exploration",
+    "(a) Multi-writer histories with unique write times in arbitrary order (every writer's clock rewinds) and byte-identical retries of earlier effective single-key statements on any writer: all outcomes and rows are compared with the reference model (an older write never overrides a newer one, cell by cell); around every retry the merged table must be unchanged, and so must the rows of a retrying writer that already holds the effect. (b) A state machine over UPDATE s3db_conn (valid, NULL, '', malformed; one or both columns), reads of s3db_conn, INSERTs and transactions with mid-transaction write_time changes, on two tables and a second untouched connection: attributes read back exactly the last accepted values, every written cell carries the write_time in force for its statement, a past deadline fails exactly the writes issued while set, nothing moves on the other connection.",
+    "stateful property-based testing (rapid): model + metamorphic (retry leaves merged contents unchanged) + entry-level timestamp inspection"))
+
+for pid in ["C03","C17","C18","C19","C20"]:
     NOT_YET[pid] = "check under construction in this session (designed in DESIGN.md section 5); not claimed until its quick tier runs clean on the unchanged tree"
 
 MANIFEST = {
